@@ -43,14 +43,16 @@ structure Pixel where
 
 /-- reciprocal-space array of `Probe._calculate_array` before the final ifft2: the scan kernel, then the top-level calls of the
 function in their *generated* source order (`Gen.Probe.probeOps`; `Waves(...)`, `tilt.apply`, `ensure_real_space` leave the array alone) -/
-def probeSpectrumF (soft : Bool) (cutoff : Option Float) (s0 s1 x y w : Float) (px : List Pixel) : List CF :=
+def probeSpectrumF (soft : Bool) (cutoff : Option Float) (s0 s1 x y w : Float) (px : List Pixel) : Except String (List CF) :=
   let kernel := px.map fun p => scanKernelF p.kx p.ky x y
-  AbtemVerif.Gen.Probe.probeOps.foldl (fun ys op =>
+  AbtemVerif.Gen.Probe.probeOps.foldlM (fun ys op =>
     if op = "waves_builder.aperture.apply" then
-      List.zipWith (fun (c : CF) (p : Pixel) => c.scale (probeApertureF soft p.zero cutoff p.alpha p.phi s0 s1)) ys px
+      .ok (List.zipWith (fun (c : CF) (p : Pixel) => c.scale (probeApertureF soft p.zero cutoff p.alpha p.phi s0 s1)) ys px)
     else if op = "waves_builder.aberrations.apply" then
-      List.zipWith (fun (c : CF) (p : Pixel) => c.mul (aberrationF w p.chi)) ys px
-    else if op = "waves.normalize" then normalizeF ys
-    else ys) kernel
+      .ok (List.zipWith (fun (c : CF) (p : Pixel) => c.mul (aberrationF w p.chi)) ys px)
+    else if op = "waves.normalize" then .ok (normalizeF ys)
+    else if op = "waves_builder.scan_positions._evaluate_kernel" || op = "Waves" || op = "waves_builder.tilt.apply"
+        || op = "waves.ensure_real_space" then .ok ys
+    else .error s!"unknown-op:{op}") kernel
 
 end AbtemVerif.ProbeModel
